@@ -66,31 +66,47 @@ pub fn verif_iter_map_collect_map<T, K: std::cmp::Eq + std::hash::Hash, V, F: Fn
 { v.iter().map(f).collect() }
 
 // ---- A2 / A3: the --disable / --enable name sets ---------------------------------------------------
-/// C14: the SET of the listed names (strings compared by content)
-pub open spec fn name_set<'a>(names: Seq<String>) -> Set<&'a str> {
-    Set::new(|s: &'a str| exists|i: int| 0 <= i < names.len() && (#[trigger] names[i])@ == s@)
+/// the name occurs in the list (strings compared by content, as `str == str` does)
+pub open spec fn name_in_list(names: Seq<String>, name: Seq<char>) -> bool {
+    exists|i: int| 0 <= i < names.len() && (#[trigger] names[i])@ == name
+}
+
+/// C14: `set` is the SET of the listed names: a name is a member iff it is listed, however often.
+/// (A relation instead of a function `Seq<String> -> Set<&str>`: this vstd's `Set` is finite by
+/// construction and has no comprehension; by set extensionality the relation fixes the set.)
+pub open spec fn is_name_set<'a>(set: Set<&'a str>, names: Seq<String>) -> bool {
+    forall|s: &'a str| #[trigger] set.contains(s) <==> name_in_list(names, s@)
+}
+
+/// the relation determines the set
+pub proof fn lemma_name_set_unique<'a>(s1: Set<&'a str>, s2: Set<&'a str>, names: Seq<String>)
+    requires is_name_set(s1, names), is_name_set(s2, names),
+    ensures s1 == s2,
+{
+    assert(s1 =~= s2);
 }
 
 /// C14: "repeating a flag composes as set union": the set of a concatenated flag list is the union
-pub proof fn lemma_name_set_union<'a>(a: Seq<String>, b: Seq<String>)
-    ensures name_set::<'a>(a + b) == name_set::<'a>(a).union(name_set::<'a>(b)), // [A2.lemma.repeated_flag_is_set_union]
+pub proof fn lemma_name_set_union<'a>(sa: Set<&'a str>, sb: Set<&'a str>, sab: Set<&'a str>, a: Seq<String>, b: Seq<String>)
+    requires is_name_set(sa, a), is_name_set(sb, b), is_name_set(sab, a + b),
+    ensures sab == sa.union(sb), // [A2.lemma.repeated_flag_is_set_union]
 {
     let ab = a + b;
-    assert forall|s: &'a str| name_set::<'a>(ab).contains(s) <==> (name_set::<'a>(a).contains(s) || name_set::<'a>(b).contains(s)) by {
-        if name_set::<'a>(ab).contains(s) {
+    assert forall|s: &'a str| sab.contains(s) <==> (sa.contains(s) || sb.contains(s)) by {
+        if name_in_list(ab, s@) {
             let i = choose|i: int| 0 <= i < ab.len() && (#[trigger] ab[i])@ == s@;
             if i < a.len() { assert(a[i]@ == s@); } else { assert(b[i - a.len()]@ == s@); }
         }
-        if name_set::<'a>(a).contains(s) {
+        if name_in_list(a, s@) {
             let i = choose|i: int| 0 <= i < a.len() && (#[trigger] a[i])@ == s@;
             assert(ab[i]@ == s@);
         }
-        if name_set::<'a>(b).contains(s) {
+        if name_in_list(b, s@) {
             let i = choose|i: int| 0 <= i < b.len() && (#[trigger] b[i])@ == s@;
             assert(ab[a.len() + i]@ == s@);
         }
     }
-    assert(name_set::<'a>(ab) =~= name_set::<'a>(a).union(name_set::<'a>(b)));
+    assert(sab =~= sa.union(sb));
 }
 
 /// E3 shim: `v.iter().map(AsRef::as_ref).collect()` into a `HashSet<&str>` (iterator adapters and the
@@ -100,8 +116,7 @@ pub proof fn lemma_name_set_union<'a>(a: Seq<String>, b: Seq<String>)
 #[verifier::external_body]
 pub fn verif_iter_as_ref_collect_set<'a>(v: &'a Vec<String>) -> (r: HashSet<&'a str>)
     ensures
-        r@ == name_set::<'a>(v@),
-        r@.finite(),
+        is_name_set(r@, v@),
 { v.iter().map(AsRef::as_ref).collect() }
 
 // ---- A4 / A5: the glob sets ---------------------------------------------------------------------------
